@@ -154,15 +154,15 @@ theorem sendCoinFromAccountToModule_hv {s s' : State} {f m : Addr} {c : Coin}
 
 theorem setProvider_hv {s s' : State} {p : Provider} (h : setProvider s p = .ok s') : hv s' = hv s := by
   unfold setProvider at h
-  split at h <;> simp only [pure_eq_ok, gopanic_ne_ok] at h <;> (try subst h) <;> first | rfl | contradiction
+  split at h <;> simp only [pure_eq_ok, gopanic_ne_ok] at h <;> (try subst h) <;> rfl
 
 theorem setPlan_hv {s s' : State} {p : Plan} (h : setPlan s p = .ok s') : hv s' = hv s := by
   unfold setPlan at h
-  split at h <;> simp only [pure_eq_ok, gopanic_ne_ok] at h <;> (try subst h) <;> first | rfl | contradiction
+  split at h <;> simp only [pure_eq_ok, gopanic_ne_ok] at h <;> (try subst h) <;> rfl
 
 theorem setNode_cv {s s' : State} {n : Node} (h : setNode s n = .ok s') : cv s' = cv s := by
   unfold setNode at h
-  split at h <;> simp only [pure_eq_ok, gopanic_ne_ok] at h <;> (try subst h) <;> first | rfl | contradiction
+  split at h <;> simp only [pure_eq_ok, gopanic_ne_ok] at h <;> (try subst h) <;> rfl
 
 /-! ### handlers that touch neither the ledger nor the nodes -/
 
@@ -483,6 +483,7 @@ theorem endBlock_ledger {s s' : State} (h : endBlock s = .ok s') :
     s'.swaps = s.swaps ∧ s'.supply = s.supply ∧ s'.params = s.params := by
   obtain ⟨sa, sb, sc, h1, h2, h3, rfl⟩ := endBlock_decompose h
   have e : cv sc = cv s := (cv_of_hv h3).trans ((nodeExpire_cv h2).trans ((nodeSweep_cv h1).trans rfl))
+  show sc.swaps = s.swaps ∧ sc.supply = s.supply ∧ sc.params = s.params
   exact ⟨cv_swaps e, cv_supply e, cv_params e⟩
 
 /-! ### governance -/
@@ -490,7 +491,7 @@ theorem endBlock_ledger {s s' : State} (h : endBlock s = .ok s') :
 theorem gov_ledger {s s' : State} {c : ParamChange} (h : gov s c = some s') :
     s'.swaps = s.swaps ∧ s'.supply = s.supply ∧ s'.nodeActive = s.nodeActive ∧ s'.nodeInactive = s.nodeInactive := by
   unfold gov at h
-  cases c <;> simp only [] at h <;> (try split at h) <;> (try split at h) <;>
+  cases c <;> simp only [] at h <;> (try split at h) <;>
     first
       | (simp only [Option.some.injEq] at h; rw [← h]; exact ⟨rfl, rfl, rfl, rfl⟩)
       | (simp only [reduceCtorEq] at h)
